@@ -26,7 +26,7 @@ func TestCheck(t *testing.T) {
 		hist.Replay(t, f)
 	}
 	run := vlib.Start("C09", "model_checking")
-	alpha := []string{"tx:t1", "tx:g1", "age", "hwm", "sweep", "part", "heal", "restart", "drop", "create", "import:s", "retain"}
+	alpha := []string{"tx:t1", "tx:g1", "age", "hwm", "sweep", "litter", "part", "heal", "restart", "drop", "create", "import:s", "retain"}
 	jobs := []hist.Job{
 		{Name: "journal-backup", Cfg: hist.Config{PageSize: 512, Start: 3, Backup: true, R2Starts: "absent", Alphabet: alpha, Prelude: []string{"tx:a:t1", "tx:a:g1"}}, Depth: 4, Budget: 70 * time.Second},
 		{Name: "wal-nobackup", Cfg: hist.Config{PageSize: 512, Start: 3, WAL: true, R2Starts: "absent", Alphabet: alpha, Prelude: []string{"tx:a:t1", "tx:a:g1"}}, Depth: 4, Budget: 70 * time.Second},
